@@ -4,7 +4,7 @@
 
 namespace plan
 {
-static const char *KNAMES[K_NKINDS] = {"NTT", "INTT", "ROUNDTRIP", "EXTEND", "MERKLE", "PARCPY", "PARSETZERO", "HOST_ICV", "DELETE_OBJECT", "MERKLE_XCHECK"};
+static const char *KNAMES[K_NKINDS] = {"NTT", "INTT", "ROUNDTRIP", "EXTEND", "MERKLE", "PARCPY", "PARSETZERO", "HOST_ICV", "DELETE_OBJECT", "MERKLE_XCHECK", "COPY_BIG"};
 const char *kind_name(int k) { return (k >= 0 && k < K_NKINDS) ? KNAMES[k] : "?"; }
 int kind_from(const std::string &s)
 {
@@ -62,6 +62,9 @@ js::Value Op::to_json() const
     case K_MERKLE_XCHECK:
         v.set("rows", Value::U(rows)).set("cols", Value::U(cols)).set("dim", Value::U(dim)).set("batch", Value::U(batch)).set("nthreads", Value::I(nthreads));
         v.set("input", Value::S(INAMES[input])).set("input_seed", Value::U(input_seed));
+        break;
+    case K_COPY_BIG:
+        v.set("size", Value::U(size)).set("threads", Value::I(threads)).set("input_seed", Value::U(input_seed)).set("zero", Value::Bool(big_zero)).set("shared_mapping", Value::Bool(big_shared));
         break;
     case K_PARCPY:
     case K_PARSETZERO:
@@ -155,6 +158,8 @@ Op Op::from_json(const js::Value &v)
     o.nthreads = (int)v.geti("nthreads", 1);
     o.size = v.getu("size", 0);
     o.threads = (int)v.geti("threads", 1);
+    o.big_zero = v.getb("zero");
+    o.big_shared = v.getb("shared_mapping");
     o.icv_nthreads = (int)v.geti("icv_nthreads", -1);
     o.icv_dyn = (int)v.geti("icv_dyn", -1);
     o.icv_limit = (int)v.geti("icv_limit", -1);
@@ -682,6 +687,33 @@ Plan generate(const std::string &profile, uint64_t seed, const GenLimits &lim)
         o.batch = r.range(2, 9);
         o.nthreads = (int)r.range(1, 8);
         o.input = r.chance(3, 4) ? IN_RAND : IN_RAND64;
+        o.input_seed = r.next();
+        o.sched_seed = r.next();
+        o.garbage_seed = r.next();
+        o.strategy = sim::ST_SERIAL_IDENTITY;
+        p.fault_free = true;
+        p.ops.push_back(o);
+    }
+    else if (profile == "C17X")
+    {
+        // bulk copies: sizes far beyond the simulated sweeps (>= 2^20 elements; occasionally more than 4 GiB handled
+        // by one member), caller memory obtained from mmap as a private or a shared mapping
+        Op o;
+        o.kind = K_COPY_BIG;
+        static const uint64_t bs[] = {1u << 20, (1u << 20) + 5, (1u << 20) - 1, (1u << 21) + 4097, 3u << 20, (1u << 22) + 511, (1u << 23) + 1, 1048581};
+        o.size = r.pick(bs);
+        static const int bt[] = {1, 2, 3, 4, 7, 8, 16, 37, 64, 64, 0, -1, 1000000};
+        o.threads = r.pick(bt);
+        o.big_zero = r.chance(1, 2);
+        o.big_shared = r.chance(1, 2);
+        if (r.chance(1, 120))
+        {
+            // one member's share reaches 4 GiB (byte counts that no longer fit 32 bits)
+            static const uint64_t gs[] = {(uint64_t)1 << 29, ((uint64_t)1 << 29) + 12345, ((uint64_t)1 << 29) + ((uint64_t)1 << 20)};
+            o.size = r.pick(gs);
+            o.threads = 1;
+            o.big_shared = false;
+        }
         o.input_seed = r.next();
         o.sched_seed = r.next();
         o.garbage_seed = r.next();
